@@ -65,6 +65,8 @@ fn db_repeat_model<const MAXML: usize, const DL: usize, const L: usize>() {
     core::mem::forget(db);
 }
 harness! { fn db_repeat_model_d2_o3() { db_repeat_model::<4, 2, 3>(); } }
+harness! { fn db_repeat_model_d1_o1() { db_repeat_model::<4, 1, 1>(); } }
+harness! { fn db_repeat_model_d2_o1() { db_repeat_model::<4, 2, 1>(); } }
 harness! { fn db_repeat_model_d0_o4() { db_repeat_model::<4, 0, 4>(); } }
 harness! { fn db_repeat_model_d3_o0() { db_repeat_model::<4, 3, 0>(); } }
 harness! { fn db_repeat_model_d4_o1() { db_repeat_model::<4, 4, 1>(); } }
